@@ -230,7 +230,7 @@ def run(pid, tier, replay=None):
     v = vlib.Verdict(pid, tier)
     v.cov["rule"] = ("programs = fiber scripts over {send,recv,close,launch} chosen by TLC from the as-is scheduler "
                      "model: one program per maximal history of the exhaustive state graph (every transition of the "
-                     "model is exercised, 3 fibers x 2 channels x 3 ops quick / 3 x 3 x 4 thorough), simulated "
+                     "model is exercised, 3 fibers x 2 channels x 3 ops quick / 3 x 2 x 4 thorough), simulated "
                      "behaviours for 4 x 3 x 5, plus the repository's channel/launch fixtures; a case is non-trivial "
                      "if at least one fiber blocks, sleeps or is launched; distinct by program text")
     v.assumptions = ["hook events are emitted at the points named in MANIFEST.hooks (after the channel operation, "
@@ -249,7 +249,7 @@ def run(pid, tier, replay=None):
         preds[rp["case"]["id"]] = rp.get("predicted")
         mode[rp["case"]["id"]] = "prefix"
     else:
-        caps, syncs = CAPS["q"] if tier == "quick" else CAPS["sim"]
+        caps, syncs = CAPS["q"]          # both coverage configurations use the two-channel layout (sync, capacity 1)
         for i, b in enumerate(coverage_behaviours(tier, v)):
             cid = f"cov:{i}"
             cases.append(schedlib.behaviour_to_case(b, caps, syncs, cid))
